@@ -24,6 +24,10 @@ func (p *Pubrel) String() string {
 // NewPubrelPacket returns a Pubrel instance by the given FixHeader and io.Reader.
 func NewPubrelPacket(fh *FixHeader, r io.Reader) (*Pubrel, error) {
 	p := &Pubrel{FixHeader: fh}
+	// the flags must be 0010 [MQTT-3.6.1-1]; MQTT 3.1 also had the DUP flag here
+	if fh.Flags&^0x08 != FlagPubrel {
+		return nil, codes.ErrMalformed
+	}
 	err := p.Unpack(r)
 	if err != nil {
 		return nil, err
